@@ -1,18 +1,64 @@
 from regbase import K, X
 
+ACC = ["sma", "wma", "swma", "trima", "hma", "linreg", "vwma", "integral", "derivative", "momentum", "roc", "past", "linvol", "adi"]
+NAMES = {"sma": "SMA", "wma": "WMA", "swma": "SWMA", "trima": "TRIMA", "hma": "HMA", "linreg": "LinReg", "vwma": "VWMA",
+         "integral": "Integral (windowed)", "derivative": "Derivative", "momentum": "Momentum", "roc": "RateOfChange", "past": "Past",
+         "linvol": "LinearVolatility", "adi": "ADI (windowed)", "conv": "Conv", "stdev": "StDev", "meanabsdev": "MeanAbsDev",
+         "medianabsdev": "MedianAbsDev", "cci": "CCI"}
+MIN2 = {"hma", "linreg", "stdev", "medianabsdev"}
+QUICK_N = list(range(1, 17)) + [31, 32, 63, 64, 127, 128, 253, 254]
+
+
+def job(m, n, t, tier="q", core=True, cost=None, timeout=900):
+    what = "%s length %d, %d steps: symbolic construction value and inputs over the reals; next() and peek() equal the documented formula evaluated from scratch on the explicit history at every step" % (NAMES[m], n, t)
+    return X("c02_" + m, {"n": n, "t": t}, what, tier=tier, core=core, cost=cost or (1 + n * n / 4000.0), timeout=timeout,
+             encodes=["src/methods/*.rs: %s::{new,next,peek}" % NAMES[m].split()[0], "src/core/window.rs: Window::{new,push,...}"])
+
 
 def jobs():
     j = []
-    for n in (1, 2, 3, 5):
-        j.append(X("c02_sma", {"n": n, "t": n + 3}, "SMA n=%d, t=n+3 symbolic real inputs: next and peek equal sum/n over the explicit history" % n, cost=2))
+    for m in ACC:
+        for n in QUICK_N:
+            if n < 2 and m in MIN2:
+                continue
+            heavy = m in ("trima", "hma") and n > 128
+            j.append(job(m, n, n + 3, tier="t" if heavy else "q", core=not heavy, cost=300 if heavy else None))
+        # thorough: every length, t = 2n+2 (deepening: the largest completed length is what is claimed)
+        for n in range(1, 255):
+            if n < 2 and m in MIN2:
+                continue
+            j.append(job(m, n, 2 * n + 2, tier="t", core=False, cost=1 + n * n / 1500.0, timeout=1800))
+    for n in range(1, 9):
+        j.append(job("conv", n, n + 3, cost=5 + n))
+    for n in range(9, 17):
+        j.append(job("conv", n, n + 3, tier="t", core=False, cost=30))
+    for n in range(2, 9):
+        j.append(job("stdev", n, n + 3, cost=5 + 2 * n))
+    for n in range(9, 33):
+        j.append(job("stdev", n, n + 3, tier="t", core=False, cost=30 + n))
+    for m in ("meanabsdev", "cci"):
+        for n in range(1, 9):
+            j.append(job(m, n, n + 3, cost=2 + n))
+        for n in range(9, 13):
+            j.append(job(m, n, n + 3, tier="t", core=False, cost=30))
+    for n in (2, 3):
+        j.append(job("medianabsdev", n, n + 2, cost=20 * n))
+    j.append(job("medianabsdev", 4, 6, tier="t", core=False, cost=600, timeout=2400))
     return j
 
 
 PROP = {
     "id": "C02",
-    "claimed": False,
     "jobs": jobs,
-    "bounds": {"quick": "wip", "thorough": "wip"},
-    "outside": [],
-    "assumptions": [],
+    "bounds": {
+        "quick": "identity with the from-scratch definition over the reals at every step: accumulator kinds (SMA WMA SWMA TRIMA HMA LinReg VWMA Integral Derivative Momentum RateOfChange Past LinearVolatility ADI) at lengths 1..16, 31, 32, 63, 64, 127, 128, 253, 254 with t = n+3; TRIMA/HMA up to 128; Conv (symbolic weights) n <= 8; StDev n <= 8; MeanAbsDev/CCI n <= 8; MedianAbsDev n <= 3",
+        "thorough": "accumulator kinds at every length 1..=254 with t = 2n+2 (best effort; completed lengths are listed in the samples); Conv n <= 16; StDev n <= 32; MeanAbsDev/CCI n <= 12; MedianAbsDev n <= 4",
+    },
+    "outside": ["IEEE rounding beyond the algebraic identity: the allowance of DESIGN.md §4 is applied only when a solver witness is replayed natively",
+                "streams longer than the stated t", "lengths above the per-method bounds",
+                "VWMA/CCI/RateOfChange at points where their documented denominator is (within 1e-3 of) zero; Conv with |sum of weights| <= 1e-3"],
+    "assumptions": ["floats are SMT reals (exact algebra); sqrt is an uninterpreted function constrained by s >= 0 and s*s = x",
+                    "robust witnesses only: a counterexample must differ by more than 2^-30 (1+scale) with inputs in [-1024, 1024], then it is replayed natively against the allowance",
+                    "translator validation on two concrete input sets per job (interpreter in f64 mode vs native build, bit-equal)",
+                    "non-linear queries (Conv, StDev, VWMA) are decided by standalone z3 / cvc5 runs on the same script when the incremental z3 core answers unknown"],
 }
